@@ -174,7 +174,8 @@ Verdict(o) ==
        c18once |-> PF(o.outcome \in {"ok", "error"}, DupLoads(o) = {}),
        c18key  |-> PF(o.outcome \in {"ok", "error"}, FragLoads(o) = {}),
        kf      |-> SetToSeq((IF KF_RebasePrefix(o, tmIn, cyc, live) THEN {"KF-REBASE-PREFIX"} ELSE {})
-                            \cup (IF ChainMultiHop(o, tmIn, live) THEN {"KF-CHAIN-MULTIHOP"} ELSE {})),
+                            \cup (IF ChainMultiHop(o, tmIn, live) THEN {"KF-CHAIN-MULTIHOP"} ELSE {})
+                            \cup (IF IdReldirOnCycle(o) THEN {"KF-ID-RELDIR-CYCLE"} ELSE {})),
        bad02   |-> SetToSeq(c02bad),
        bad03   |-> SetToSeq(offc \cup badf) ]
 
